@@ -19,6 +19,9 @@ func normAnchor(s string) string {
 func (c *FnCtx) pointEnv(what string) *Env {
 	b, idx := c.curBlock, c.curIdx
 	env := &Env{c: c, names: map[string]Val{}, heap: c.heap, old: c.entry, pkg: c.pkg, what: what}
+	for _, p := range c.fn.Params {
+		env.names["entry_"+p.Name()] = c.vals[p]
+	}
 	env.lookup = func(name string) (Val, bool) {
 		v, isAddr, ok := c.resolveName(name, b, idx, false)
 		if !ok {
@@ -116,10 +119,10 @@ func (c *FnCtx) countCall(name string) {
 
 func (c *FnCtx) setGhost(k string, v Val) {
 	if c.discover {
-		if c.writes[c.curBlock] == nil {
-			c.writes[c.curBlock] = map[string]bool{}
+		if c.writes[c.wblk()] == nil {
+			c.writes[c.wblk()] = map[string]bool{}
 		}
-		c.writes[c.curBlock]["ghost:"+k] = true
+		c.writes[c.wblk()]["ghost:"+k] = true
 		return
 	}
 	ng := map[string]Val{}
